@@ -3,7 +3,7 @@
    (None = the library rejected the bytes), for ANY list of handlers, any listener interface
    index and any control message.  hdr_preserving is what every built-in plugin handler
    satisfies (proved per plugin in the plugin developments). *)
-From Verif Require Import Base BaseProofs Net Msg4 Chain ChainProofs Server4 Server4Run Server4Proofs Server4Examples.
+From Verif Require Import Base BaseProofs Net Msg4 Chain ChainProofs Server4 Server4Run Server4Proofs Server4Examples Assembly AssemblyProofs AsmRefine.
 Open Scope N_scope.
 
 Theorem reply4_only_to_requests :
@@ -79,6 +79,42 @@ Theorem reply4_matches_request :
 Proof. exact Server4Proofs.reply4_matches_request. Qed.
 Print Assumptions reply4_matches_request.
 
+
+Theorem assembled_is_handle4 :
+  forall (is : list inst4) (lif now : Z) (oob : option Z) (parsed : option msg4)
+  (is' : list inst4) (o : outcome4),
+  srv4_step is lif now oob parsed = (is', o) ->
+  o <> O4Panic -> fst (handle4 (map (as_handler4 now) is) lif oob parsed) = out4_of o.
+Proof. exact (@AsmRefine.srv4_refines_handle4). Qed.
+Print Assumptions assembled_is_handle4.
+
+Theorem instances_header_preserving :
+  forall (now : Z) (i : inst4), hdr_preserving (as_handler4 now i).
+Proof. exact (@AsmRefine.inst_hdr_preserving). Qed.
+Print Assumptions instances_header_preserving.
+
+Theorem assembled_reply4_matches_request :
+  forall (is : list inst4) (lif now : Z) (oob : option Z) (req : msg4)
+  (is' : list inst4) (d : dest4) (m : msg4),
+  srv4_step is lif now oob (Some req) = (is', O4Sent d m) ->
+  m_op req = 1 /\
+  m_op m = 2 /\
+  m_xid m = m_xid req /\
+  m_htype m = m_htype req /\
+  m_chaddr m = m_chaddr req /\
+  m_flags m = m_flags req /\
+  m_giaddr m = m_giaddr req /\
+  (forall c : N,
+  c = 61 \/ c = 82 ->
+  opt_get c (m_opts m) =
+  match opt_get c (m_opts req) with
+  | Some (b :: v) => Some (b :: v)
+  | _ => None
+  end) /\
+  (msg_type req = 1 /\ (msg_type m = 2 \/ msg_type m = 6) \/
+  msg_type req = 3 /\ (msg_type m = 5 \/ msg_type m = 6)).
+Proof. exact (@AsmRefine.assembled_reply4_matches_request). Qed.
+Print Assumptions assembled_reply4_matches_request.
 
 (* Non-vacuity (proofs/Server4Examples.v): a DISCOVER through the chain [mark; set yiaddr; stop; mark]
    on an unbound listener is answered by a link-level OFFER on the receiving interface, the fourth
